@@ -199,6 +199,9 @@ def class_configs(quick):
         C.append(("TriPlusDiag", {"upper": up}, 3))
     for sizes in [(2, 3), (3, 2), (2, 2, 2), (1, 3), (4, 3)]:
         C.append(("Kron", {"sizes": sizes}, int(math.prod(sizes))))
+    C.append(("Kron", {"sizes": (2, 3), "fcls": ["Dense", "Diag"]}, 6))
+    C.append(("Kron", {"sizes": (3, 2), "fcls": ["Diag", "Toeplitz"]}, 6))
+    C.append(("Kron", {"sizes": (2, 2), "fcls": ["Chol", "Dense"], "fkw": {"upper": False}}, 4))
     for sizes in [(2, 3), (3, 3), (2, 2, 2)]:
         C.append(("KronAddedDiag", {"sizes": sizes, "dk": "const"}, int(math.prod(sizes))))
     C.append(("KronAddedDiag", {"sizes": (2, 3), "dk": "general"}, 6))
@@ -207,6 +210,9 @@ def class_configs(quick):
     for k, m in [(2, 3), (3, 2), (1, 4), (4, 1)]:
         C.append(("BlockDiag", {"blocks": k}, m))
         C.append(("BlockInterleaved", {"blocks": k}, m))
+    # (BlockDiag / BlockInterleaved of a DiagLinearOperator is constructed as a DiagLinearOperator: no separate cell)
+    C.append(("BlockDiag", {"blocks": 2, "base": "Chol", "base_kw": {"upper": True}}, 3))
+    C.append(("BlockInterleaved", {"blocks": 2, "base": "Chol", "base_kw": {"upper": False}}, 2))
     for rep, n in [((2,), 3), ((3,), 5)]:
         C.append(("BatchRepeat", {"rep": rep}, n))
     for n in [4, 6]:
@@ -430,10 +436,10 @@ def case_lit(cell, spec, rhs, left, obs):
     ll = left.expand(*bb, *left.shape[-2:]) if left is not None else None
     mems = []
     for idx in itertools.product(*[range(s) for s in bb]):
-        lit = "(MkMem %s %s %s %s)" % (
+        lit = "(MkMem %s %s %s %s %s)" % (
             ops.opd_lit(spec, bb, idx), ops.cols_lit(rr[idx] if bb else rr),
             "None" if ll is None else "(Some (%d%%N, %s))" % (ll.shape[-2], ops.mat_lit(ll[idx] if bb else ll)),
-            ops.cols_lit(oo[idx] if bb else oo))
+            ops.cols_lit(oo[idx] if bb else oo), ops.spec_lit(spec, bb, idx))
         mems.append(lit)
     fold = 0
     if spec["cls"] == "BatchRepeat" and left is None and not ops.batch(spec["base"]) and len(spec["rep"]) == 1 \
@@ -556,9 +562,42 @@ def regenerate():
     return None
 
 
+def _clean_shards(gen, own_only=False):
+    """remove case shards of finished runs (this pid when own_only; otherwise every pid that is no longer alive)"""
+    try:
+        names = os.listdir(gen)
+    except OSError:
+        return
+    for f in names:
+        m = re.match(r"\.?cases_c04_(\d+)(?:_\d+)?\.(v|vo|vok|vos|glob|aux)$", f)
+        if not m:
+            continue
+        pid = int(m.group(1))
+        alive = True
+        if pid == os.getpid():
+            alive = not own_only
+            if not own_only:
+                continue
+        else:
+            if own_only:
+                continue
+            try:
+                os.kill(pid, 0)
+            except OSError:
+                alive = False
+            if "_" not in f[len("cases_c04_"):].split(".")[0]:
+                alive = False          # shards of the old naming scheme (no pid)
+        if not alive:
+            try:
+                os.remove(os.path.join(gen, f))
+            except OSError:
+                pass
+
+
 def run(ctx):
     torch.set_num_threads(1)
     regenerate()
+    _clean_shards(ctx.gen)
 
     def on_fail(info):
         return direct_search(ctx) > 0
@@ -583,8 +622,8 @@ def run(ctx):
         lit = None
         if "exc" in obs:
             stats["raised"] += 1
-        else:
-            lit = case_lit(cell, spec, rhs, left, obs)
+        elif f is None or f[0] in ("value", "residual"):
+            lit = case_lit(cell, spec, rhs, left, obs)      # (wrong shape / dtype / type: no Coq case, the predicate already failed)
         if f:
             stats["direct_failures"] += 1
             key = key_of(cell, spec, obs, f[0])
@@ -605,7 +644,8 @@ def run(ctx):
         SH = 120
         shards = []
         for s in range(0, len(idx), SH):
-            shards.append(("c04_%d" % (s // SH), shard_src([cases[i][5] for i in idx[s:s + SH]])))
+            # the pid keeps concurrent runs of this check (coordinator + builder) from sharing shard files
+            shards.append(("c04_%d_%d" % (os.getpid(), s // SH), shard_src([cases[i][5] for i in idx[s:s + SH]])))
         n_shards = len(shards)
         res = common.run_shards(ctx, shards)
         for si, (name, _) in enumerate(shards):
@@ -616,6 +656,8 @@ def run(ctx):
                 continue
             for b in bad:
                 mism.setdefault(idx[si * SH + b // 10], []).append(b % 10)
+        if not mism:
+            _clean_shards(ctx.gen, own_only=True)
         reported = 0
         for i, codes in sorted(mism.items()):
             cell, spec, rhs, left, obs, lit, f = cases[i]
